@@ -4,6 +4,7 @@
   Helper lemmas: `Lemmas/ExecEv.lean`.
 -/
 import PyGqlModel.Lemmas.ExecErr
+import PyGqlModel.Lemmas.ExecLive
 
 set_option linter.unusedVariables false
 set_option linter.unusedSimpArgs false
@@ -187,12 +188,8 @@ theorem unexpected_surfaces (op : Op) (schedule : List Nat) :
   · intro e he
     rw [he] at ha; exact ha
 
-/-- The full termination statement of C08 on the model: whenever no task is outstanding any more, the
-    overall result is there (not pending) — for every operation and every schedule. NOT proved here
-    (needs the counter invariant `done = #finished slots < target` lifted from `GState` to gather nodes
-    inside trees, and `tasks(tree) ⊆ queue`); the controlled-scheduler oracle checks it on every run
-    (`never-completes`), and `always_terminates_partial` (Props/C08.lean) proves it for the
-    `gather_futures` machine itself. -/
+/-- The termination statement of C08 on the model: whenever no task is outstanding any more, the
+    overall result is there (not pending) — for every operation and every schedule. -/
 def AlwaysTerminatesFull : Prop :=
   ∀ (op : Op) (schedule : List Nat),
     match execute op {} with
@@ -200,6 +197,32 @@ def AlwaysTerminatesFull : Prop :=
     | (.ok top, s) =>
       (runSched top s [] schedule).st.queue = [] →
       (runSched top s [] schedule).top.finished = true
+
+/-- **always_terminates.** For every operation, every assignment of resolver modes and EVERY schedule:
+    in every reachable state a pending overall result implies an outstanding task — every pending Future
+    in the tree waits (through exact `gather` counters `done = #finished < target`) for a task that is
+    still in the queue. Hence once all resolver tasks have completed, the execution has completed
+    (measure: outstanding tasks). Together with `unexpected_surfaces`: it has then either returned the
+    blocking data or failed with an unexpected resolver exception — never left pending. -/
+theorem always_terminates : AlwaysTerminatesFull := by
+  intro op schedule
+  have hinv := execute_inv op {}
+  have hlive := execute_live op {}
+  cases hr : execute op {} with
+  | mk r s =>
+    rw [hr] at hinv hlive
+    cases r with
+    | exc e => trivial
+    | ok top =>
+      simp only at hinv hlive ⊢
+      intro hq
+      have hl := runSched_live _ schedule top s [] hinv hlive
+      rw [hq] at hl
+      cases hf : (runSched top s [] schedule).top.finished with
+      | true => rfl
+      | false =>
+        obtain ⟨id, hid⟩ := live_pending [] _ hl hf
+        simp at hid
 
 /-- non-vacuity: `{ a: deferred→[exc] b: deferred→1 }`, `b` completes first, then `a` — the result fails;
     and with `a` fine the data is the blocking data although `b` completed first. -/
